@@ -22,6 +22,7 @@ import (
 	"go/constant"
 	"go/token"
 	"go/types"
+	"strings"
 
 	"golang.org/x/tools/go/ssa"
 )
@@ -129,6 +130,182 @@ func checkC11(ctx *Ctx, r *Report, tier string) {
 	r.Counts["sink_goroutines"] = ns
 	r.floor("B5", 4)
 	r.expectControl("B5", "verifCtlSinkSkipsFirst")
+	ruleSaveNeverDeclines(ctx, r)
+	ruleSinkFinalises(ctx, r, "B7", nil)
+	r.floor("B7", 4)
+}
+
+// ruleSaveNeverDeclines (B6): a Save function refuses only when the system does. Every call of
+// a library outside the module that a successful return of the function depends on (creating
+// the file, starting and ending the document, flushing) is passed on every path that takes the
+// success side of every test of an error value: a return before it on any other ground - the
+// drawing's extent, the number of items - drops everything the sink had accepted and leaves an
+// older file in place.
+func ruleSaveNeverDeclines(ctx *Ctx, r *Report) {
+	n := 0
+	for _, fn := range ctx.srcFuncs("render") {
+		if fn.Parent() != nil || len(fn.Blocks) == 0 || !strings.HasPrefix(fn.Name(), "Save") {
+			continue
+		}
+		res := fn.Signature.Results()
+		if res.Len() != 1 || res.At(0).Type().String() != "error" {
+			continue
+		}
+		// success returns: `return nil`, or returning the result of the last call unchanged
+		var succ []*ssa.BasicBlock
+		for _, b := range fn.Blocks {
+			if ret, ok := b.Instrs[len(b.Instrs)-1].(*ssa.Return); ok && len(ret.Results) == 1 {
+				if c, ok := ret.Results[0].(*ssa.Const); ok && c.IsNil() {
+					succ = append(succ, b)
+				} else if _, ok := ret.Results[0].(*ssa.Call); ok {
+					succ = append(succ, b)
+				}
+			}
+		}
+		var must []*ssa.Call
+		allInstrs(fn, func(b *ssa.BasicBlock, ins ssa.Instruction) {
+			c, ok := ins.(*ssa.Call)
+			if !ok {
+				return
+			}
+			external := false
+			if g := c.Call.StaticCallee(); g != nil {
+				external = !inModule(g) && g.Pkg != nil
+			} else if c.Call.IsInvoke() {
+				if nt, ok := derefType(c.Call.Value.Type()).(*types.Named); ok && nt.Obj().Pkg() != nil {
+					external = !strings.HasPrefix(nt.Obj().Pkg().Path(), modPath)
+				}
+			}
+			if !external {
+				return
+			}
+			if g := c.Call.StaticCallee(); g != nil && g.Pkg != nil {
+				switch g.Pkg.Pkg.Path() {
+				case "fmt", "errors", "math", "strings", "strconv":
+					return // no effect on the file
+				}
+			}
+			for _, sb := range succ {
+				if b.Dominates(sb) {
+					must = append(must, c)
+					return
+				}
+			}
+		})
+		if len(succ) == 0 || len(must) == 0 {
+			continue
+		}
+		bad := ""
+		for _, c := range must {
+			c := c
+			if !goodPathsHit(fn, func(ins ssa.Instruction) bool { return ins == ssa.Instruction(c) }) {
+				bad += fmt.Sprintf(" %s at %s can be skipped by a return that is not the failure side of an error test;", calleeName(&c.Call), ctx.pos(c.Pos()))
+			}
+		}
+		n++
+		r.check("B6", shortFn(fn)+"|declines-only-on-a-system-error", fn.Pos(), bad == "", fmt.Sprintf("%d external calls the success return depends on;%s", len(must), bad))
+	}
+	r.floor("B6", 2)
+}
+
+// goodSuccs: the successors of b a failure-free run can take (the failure side of a test of an
+// error value is left out).
+func goodSuccs(b *ssa.BasicBlock) []*ssa.BasicBlock {
+	succs := b.Succs
+	if iff, ok := b.Instrs[len(b.Instrs)-1].(*ssa.If); ok && len(succs) == 2 && isErrorCond(iff.Cond) {
+		switch iff.Cond.(*ssa.BinOp).Op {
+		case token.NEQ:
+			succs = succs[1:]
+		case token.EQL:
+			succs = succs[:1]
+		}
+	}
+	return succs
+}
+
+// ruleSinkFinalises (B7, C15 X5): after its channel is exhausted a sink goroutine finishes the
+// file (save, encode, flush, header rewrite). Whether it does may depend on earlier I/O errors
+// and on nothing else: every call that some failure-free path from the end of the receive loop
+// makes (outside later loops) is made by all of them. A goroutine that skips the save for an
+// empty drawing leaves no file - or the previous export - where the caller expects this one.
+func ruleSinkFinalises(ctx *Ctx, r *Report, rule string, only func(gs goSite) bool) {
+	for _, gs := range goSites(ctx) {
+		if gs.callee == nil || (only != nil && !only(gs)) {
+			continue
+		}
+		loops := recvLoops(gs.callee)
+		if len(loops) == 0 {
+			continue
+		}
+		if ch, ok := loops[0].chanVal.Type().Underlying().(*types.Chan); !ok {
+			continue
+		} else if _, isSlice := ch.Elem().Underlying().(*types.Slice); !isSlice {
+			continue
+		}
+		fn := gs.callee
+		start := loops[0].done
+		var calls []*ssa.Call
+		seen := map[*ssa.BasicBlock]bool{start: true}
+		work := []*ssa.BasicBlock{start}
+		for len(work) > 0 {
+			b := work[0]
+			work = work[1:]
+			for _, ins := range b.Instrs {
+				c, ok := ins.(*ssa.Call)
+				if !ok || innermostLoop(fn, b) != nil {
+					continue
+				}
+				if _, isBuiltin := c.Call.Value.(*ssa.Builtin); isBuiltin {
+					continue
+				}
+				if g := c.Call.StaticCallee(); g != nil && g.Pkg != nil && g.Pkg.Pkg.Path() == "fmt" {
+					continue
+				}
+				calls = append(calls, c)
+			}
+			for _, su := range goodSuccs(b) {
+				if !seen[su] {
+					seen[su] = true
+					work = append(work, su)
+				}
+			}
+		}
+		bad := ""
+		for _, c := range calls {
+			c := c
+			vis := map[*ssa.BasicBlock]bool{}
+			var walk func(b *ssa.BasicBlock) bool
+			walk = func(b *ssa.BasicBlock) bool {
+				if vis[b] {
+					return true
+				}
+				vis[b] = true
+				for _, ins := range b.Instrs {
+					if ins == ssa.Instruction(c) {
+						return true
+					}
+					switch ins.(type) {
+					case *ssa.Return, *ssa.RunDefers:
+						return false
+					}
+				}
+				for _, su := range goodSuccs(b) {
+					if !walk(su) {
+						return false
+					}
+				}
+				return true
+			}
+			if !walk(start) {
+				name := calleeName(&c.Call)
+				if name == "" && c.Call.IsInvoke() {
+					name = c.Call.Method.Name()
+				}
+				bad += fmt.Sprintf(" %s at %s is skipped on a path that no I/O error explains;", name, ctx.pos(c.Pos()))
+			}
+		}
+		r.check(rule, gs.key+"|finishes-the-file-unless-an-error-occurred", gs.instr.Pos(), bad == "", fmt.Sprintf("%d finishing calls after the receive loop;%s", len(calls), bad))
+	}
 }
 
 func isMutexCall(ins ssa.Instruction, method string) (ssa.Value, bool) {
